@@ -153,6 +153,9 @@ def run_bind(case):
     P.new_cells("acc", formula="lambda k: k + h()")
     if case.get("nested"):
         P.new_space("Ch").new_cells("hc", formula="lambda: 7 + %s" % expr)
+        # a parametrised child whose parameter is named like the first parameter of its parent: inside its
+        # instances the name denotes the child's argument, the other names the parent's
+        P.new_space("In", formula="lambda %s=77: None" % names[0]).new_cells("hi", formula="lambda: %s" % expr)
     plainf = B.plain(params, expr)
     T = m.new_space("T")
     T.P = P
@@ -195,6 +198,13 @@ def run_bind(case):
             if got != exp + 7:
                 V("value", "a cells in a child space of an instance does not see the parameters", call=text, got=got,
                   expected=exp + 7)
+            for inner in (9, None):
+                got = val(inst.In(9).hi) if inner is not None else val(inst.In().hi)
+                want = plainf(*((77 if inner is None else inner,) + tuple(key[1:])))
+                cnt["bind_value_checks"] += 1
+                if got != want:
+                    V("value", "a nested instance does not bind its own argument over its parent's of the same name",
+                      call=text, inner=inner, got=got, expected=want)
         cnt["identity_checks"] += 1
         sub_ = P[key if len(key) != 1 else key[0]]
         if sub_ is not inst:
